@@ -697,3 +697,70 @@ impl<'c, K: CtrlKind> MultiDispatchController<'c> for HMulti<K> {
         self.times as usize
     }
 }
+
+
+// ---------------------------------------------------------------------------
+// statically typed systems: the library's own setup / fetch paths
+// ---------------------------------------------------------------------------
+
+pub trait StaticKind: Send + 'static {
+    type Data<'c>: SystemData<'c>;
+}
+pub struct SUnit;
+pub struct SReadA;
+pub struct SWriteC;
+pub struct SOptReadA;
+pub struct SOptWriteC;
+pub struct SReadExpectA;
+pub struct SReadAWriteC;
+impl StaticKind for SUnit {
+    type Data<'c> = ();
+}
+impl StaticKind for SReadA {
+    type Data<'c> = Read<'c, Cell0>;
+}
+impl StaticKind for SWriteC {
+    type Data<'c> = Write<'c, Cell1>;
+}
+impl StaticKind for SOptReadA {
+    type Data<'c> = Option<Read<'c, Cell0>>;
+}
+impl StaticKind for SOptWriteC {
+    type Data<'c> = Option<Write<'c, Cell1>>;
+}
+impl StaticKind for SReadExpectA {
+    type Data<'c> = shred::ReadExpect<'c, Cell0>;
+}
+impl StaticKind for SReadAWriteC {
+    type Data<'c> = (Read<'c, Cell0>, Write<'c, Cell1>);
+}
+
+/// A system with statically typed data; `setup` is deliberately NOT overridden (the default
+/// `System::setup` -> `SystemData::setup` path is what is being checked through the world).
+pub struct SSys<K: StaticKind> {
+    pub id: usize,
+    pub time: u8,
+    pub ctx: Arc<Ctx>,
+    pub _k: PhantomData<K>,
+}
+
+impl<'a, K: StaticKind> System<'a> for SSys<K> {
+    type SystemData = K::Data<'a>;
+
+    fn run(&mut self, data: Self::SystemData) {
+        drop(data);
+        if self.ctx.is_ident() {
+            self.ctx.log(Ev::Ident, self.id, 0);
+            return;
+        }
+        self.ctx.runs.lock().unwrap()[self.id] += 1;
+    }
+
+    fn running_time(&self) -> RunningTime {
+        running_time(self.time)
+    }
+
+    fn dispose(self, _world: &mut World) {
+        self.ctx.disposes.lock().unwrap()[self.id] += 1;
+    }
+}
